@@ -1854,3 +1854,296 @@ def state_codes_witness(ctx, which=("squeue", "sacct", "bjobs", "qstat")):
             if got not in ("UNKNOWN", "<absent>"):
                 diffs.append(f"an empty bjobs answer (no record of the job) is reported as {got}, expected UNKNOWN")
     return n, diffs, None
+
+
+# --------------------------------------------------------------------------- the local pool's task coroutine under fault injection
+class _TaskInterp(PureInterp):
+    """PureInterp that counts awaits and delivers one CancelledError at the chosen await (before the awaited operation takes effect)."""
+
+    def __init__(self, ctx, hooks, cancel_at=None):
+        super().__init__(ctx, hooks=hooks, max_depth=14)
+        self.cancel_at = cancel_at
+        self.awaits = 0
+        self.await_log = []
+
+    def e_Await(self, n, env, module, depth):
+        # awaiting one of the pool's own coroutines does not suspend: cancellation lands at the innermost real suspension point
+        f = n.value.func if isinstance(n.value, ast.Call) else None
+        fname = f.attr if isinstance(f, ast.Attribute) else f.id if isinstance(f, ast.Name) else None
+        if fname and fname in self._own_coroutines(module):
+            return self.eval(n.value, env, module, depth)
+        self.awaits += 1
+        self.await_log.append(ast.unparse(n.value)[:50])
+        if self.cancel_at is not None and self.awaits == self.cancel_at:
+            self.events.append(("cancel-delivered", self.awaits, ast.unparse(n.value)[:40]))
+            raise Raised("CancelledError", "cancelled at await #%d" % self.awaits)
+        return self.eval(n.value, env, module, depth)
+
+
+def _own_coroutines(self, module):
+    c = self.__dict__.setdefault("_own_coros", {})
+    if id(module) not in c:
+        c[id(module)] = {x.name for x in ast.walk(module.tree) if isinstance(x, ast.AsyncFunctionDef)}
+    return c[id(module)]
+
+
+_TaskInterp._own_coroutines = _own_coroutines
+
+
+def eval_task(ctx, deps=None, rc=0, timeout=False, spawn_fails=False, log_fails=False, cancel_at=None, unknown_dep=False):
+    """Scheduler.try_handle_task evaluated once. deps: {dep id: final LocalStatus member}. Returns (result dict, error)."""
+    LOCAL = "gwf.backends.local"
+    idx = ctx.index
+    ci = idx.cls(f"{LOCAL}:Scheduler")
+    th = idx.method(ci, "try_handle_task")
+    L = lambda m: EnumVal(f"{LOCAL}.LocalStatus", m)
+    deps = dict(deps or {})
+    ev = []
+    sem = Obj("semaphore")
+    proc = Obj("proc", returncode=rc, pid=4321)
+    tasks = {d: Obj("aiotask", dep=d) for d in deps}
+    states = {d: L(s) for d, s in deps.items()}
+    states[7] = L("SUBMITTED")
+    dep_ids = list(deps) + ([99] if unknown_dep else [])
+
+    def h_wait(aws, **k):
+        aws = list(aws)
+        ev.append(("wait", sorted(getattr(a, "dep", "?") for a in aws), dict(k)))
+        return (set(aws), set())
+
+    def h_spawn(*a, **k):
+        ev.append(("spawn", dict(k), a))
+        if spawn_fails:
+            raise Raised("FileNotFoundError", "no such working directory")
+        return proc
+
+    def h_wait_for(aw, timeout=None, **k):
+        if timeout is None and k.get("timeout") is not None:
+            timeout = k["timeout"]
+        ev.append(("wait_for", timeout))
+        if timeout_flag[0] and isinstance(aw, tuple) and aw and aw[0] == "COMM":
+            raise Raised("TimeoutError", "time limit")
+        return aw[1] if isinstance(aw, tuple) and aw and aw[0] == "COMM" else aw
+
+    timeout_flag = [timeout]
+
+    def h_communicate(recv, *a, **k):
+        ev.append(("communicate",))
+        return ("COMM", (b"OUT", b"ERR"))
+
+    def h_open(path, mode="r", *a, **k):
+        mode = k.get("mode", mode)
+        ev.append(("open", str(path), mode))
+        if log_fails:
+            raise Raised("PermissionError", str(path))
+        return Obj("file", path=str(path), mode=mode)
+
+    hooks = {
+        "asyncio.wait": h_wait, "asyncio.gather": lambda *aws, **k: ev.append(("wait", sorted(getattr(a, "dep", "?") for a in aws), dict(k))) or [None for _ in aws],
+        "asyncio.wait_for": h_wait_for,
+        "asyncio.create_subprocess_shell": h_spawn, "asyncio.create_subprocess_exec": h_spawn,
+        "asyncio.sleep": lambda *a, **k: ev.append(("sleep", a[0] if a else None)),
+        "attr:acquire": lambda recv, *a, **k: ev.append(("acquire",)),
+        "attr:release": lambda recv, *a, **k: ev.append(("release",)),
+        "attr:communicate": h_communicate,
+        "attr:wait": lambda recv, *a, **k: ev.append(("proc.wait",)),
+        "attr:done": lambda recv, *a, **k: False, "attr:cancelled": lambda recv, *a, **k: False,
+        "attr:kill": lambda recv, *a, **k: ev.append(("proc.kill",)), "attr:terminate": lambda recv, *a, **k: ev.append(("proc.terminate",)),
+        "attr:send_signal": lambda recv, *a, **k: ev.append(("proc.send_signal", a)),
+        "os.killpg": lambda pid, sig: ev.append(("killpg", pid, getattr(sig, "name", str(sig)).rsplit(".", 1)[-1])),
+        "os.getpgid": lambda pid: pid,
+        "builtins.open": h_open,
+        "attr:write": lambda recv, data, *a: ev.append(("write", getattr(recv, "path", None), data)),
+        "attr:joinpath": lambda recv, *parts: PathTok("/".join([str(recv)] + [str(p_) for p_ in parts])),
+        "pathlib.Path": lambda *a: PathTok("/".join(str(x) for x in a)),
+    }
+    sched = Obj("scheduler", working_dir=PathTok("/wd"), max_cores=2, tasks=tasks, task_states=states, cores_ressource=sem, **{"__class__": ci})
+    interp = _TaskInterp(ctx, hooks, cancel_at)
+    interp.events = ev
+    out = {"events": ev, "raised": None}
+    try:
+        interp.call(th, (7, "NAME", "echo hi", "/work", 5 if timeout else None, dep_ids), {}, self_obj=sched)
+    except Raised as exc:
+        out["raised"] = exc.kind
+    except Unsupported as exc:
+        return None, f"Unsupported: {exc}"
+    st = states.get(7)
+    out["final"] = st.member if isinstance(st, EnumVal) else st
+    out["awaits"] = interp.awaits
+    out["await_log"] = interp.await_log
+    return out, None
+
+
+def _task_invariants(label, out):
+    """Property-level invariants of one evaluated history of the task coroutine (C11, C12, C13)."""
+    ev = out["events"]
+    kinds = [e[0] for e in ev]
+    diffs = []
+    n_acq, n_rel = kinds.count("acquire"), kinds.count("release")
+    if n_acq > 1:
+        diffs.append(f"{label}: the core semaphore is acquired {n_acq} times")
+    cancelled_in_acquire = any(e[0] == "cancel-delivered" and "acquire" in e[2] for e in ev)
+    held = n_acq - (1 if cancelled_in_acquire else 0)
+    if n_rel > max(held, 0):
+        diffs.append(f"{label}: release() is called {n_rel} time(s) although {max(held, 0)} core(s) were obtained: the pool grows by a slot for its lifetime")
+    if n_rel < held:
+        diffs.append(f"{label}: a core was obtained but never released: the slot is lost for the pool's lifetime")
+    if "spawn" in kinds:
+        i_sp = kinds.index("spawn")
+        if "acquire" not in kinds[:i_sp]:
+            diffs.append(f"{label}: the task's process is started without holding a core")
+        if "release" in kinds[:i_sp]:
+            diffs.append(f"{label}: the core is released before the process is started")
+        kw = ev[i_sp][1]
+        if not (kw.get("start_new_session") is True or kw.get("process_group") == 0):
+            diffs.append(f"{label}: the process is not started as a session/group leader, so its children cannot be signalled")
+        if kw.get("cwd") != "/work":
+            diffs.append(f"{label}: the process is started in {kw.get('cwd')!r}, not in the task's working directory")
+    if out["raised"]:
+        diffs.append(f"{label}: the coroutine ends with an unhandled {out['raised']} (the task never reaches a final state and its dependents hang)")
+    if out["final"] not in ("COMPLETED", "FAILED", "KILLED", "CANCELLED"):
+        diffs.append(f"{label}: the coroutine ends with the task in state {out['final']}: not a final state, so it and every task depending on it hang forever")
+    return diffs
+
+
+def task_coroutine_witness(ctx):
+    diffs, n = [], 0
+    spawned = lambda o: any(e[0] == "spawn" for e in o["events"])
+
+    def run(label, **kw):
+        nonlocal n
+        out, err = eval_task(ctx, **kw)
+        if err:
+            raise Unsupported(err)
+        n += 1
+        diffs.extend(_task_invariants(label, out))
+        return out
+
+    try:
+        # dependencies
+        for deps, want, label in (({}, {"COMPLETED"}, "no dependencies, exit 0"), ({1: "COMPLETED", 2: "COMPLETED"}, {"COMPLETED"}, "two completed dependencies, exit 0"),
+                                  ({1: "COMPLETED", 2: "FAILED"}, {"FAILED"}, "one of two dependencies failed"), ({1: "FAILED", 2: "COMPLETED"}, {"FAILED"}, "first of two dependencies failed"),
+                                  ({1: "CANCELLED"}, {"CANCELLED"}, "the dependency was cancelled"), ({1: "KILLED"}, {"KILLED", "FAILED"}, "the dependency exceeded its time limit"),
+                                  ({1: "COMPLETED", 2: "COMPLETED", 3: "CANCELLED"}, {"CANCELLED"}, "last of three dependencies cancelled")):
+            out = run(label, deps=deps)
+            ok_deps = all(s == "COMPLETED" for s in deps.values())
+            if deps:
+                waits = [e for e in out["events"] if e[0] == "wait"]
+                waited = sorted({d for w in waits for d in w[1]})
+                if waited != sorted(deps):
+                    diffs.append(f"{label}: the coroutine waits for dependencies {waited}, not for all of {sorted(deps)}")
+                for w in waits:
+                    rw = w[2].get("return_when")
+                    if rw is not None and "ALL_COMPLETED" not in str(getattr(rw, "name", rw)):
+                        diffs.append(f"{label}: dependencies are awaited with return_when={rw}: the task can start when only the first dependency has finished")
+                    if w[2].get("timeout") is not None:
+                        diffs.append(f"{label}: the wait for the dependencies has a timeout: the task can start while a dependency is still running")
+                if spawned(out) and "wait" in [e[0] for e in out["events"]] and [e[0] for e in out["events"]].index("spawn") < [e[0] for e in out["events"]].index("wait"):
+                    diffs.append(f"{label}: the process is started before the dependencies are awaited")
+            if ok_deps != spawned(out):
+                diffs.append(f"{label}: the task's process is {'started' if spawned(out) else 'not started'}; it must be started exactly when every dependency completed successfully")
+            if out["final"] not in want:
+                diffs.append(f"{label}: the task ends {out['final']}, expected {sorted(want)}")
+        out = run("unknown dependency id", unknown_dep=True)
+        if spawned(out) or out["final"] != "FAILED":
+            diffs.append(f"a task naming an unknown dependency id {'is started' if spawned(out) else 'is not started'} and ends {out['final']}; expected: not started, FAILED")
+        # exit status
+        for rc, want in ((0, "COMPLETED"), (1, "FAILED"), (255, "FAILED"), (-9, "FAILED")):
+            out = run(f"exit status {rc}", rc=rc)
+            if out["final"] != want:
+                diffs.append(f"a task whose process exits with status {rc} ends {out['final']}, expected {want}")
+            ev = out["events"]
+            writes = {str(e[1]): e[2] for e in ev if e[0] == "write"}
+            if writes != {"/wd/.gwf/logs/NAME.stdout": b"OUT", "/wd/.gwf/logs/NAME.stderr": b"ERR"}:
+                diffs.append(f"exit status {rc}: the task's output is stored as {writes}; expected stdout -> <project>/.gwf/logs/NAME.stdout and stderr -> NAME.stderr, complete")
+            opens = [e for e in ev if e[0] == "open"]
+            if any(e[2] not in ("wb", "bw") for e in opens):
+                diffs.append(f"exit status {rc}: the logs are opened with modes {[e[2] for e in opens]}; the latest run's bytes must replace the file ('wb')")
+            kinds = [e[0] for e in ev]
+            if "communicate" in kinds and "release" in kinds and kinds.index("release") < kinds.index("communicate"):
+                diffs.append(f"exit status {rc}: the core is released before the process has finished")
+        # faults
+        out = run("the process cannot be started", spawn_fails=True)
+        if out["final"] != "FAILED":
+            diffs.append(f"a task whose process cannot be started (missing working directory) ends {out['final']}, expected FAILED")
+        if any(e[0] in ("killpg", "proc.wait", "proc.kill") for e in out["events"]):
+            diffs.append("a task whose process could not be started runs the kill sequence on a process that does not exist")
+        out = run("the log files cannot be written", log_fails=True)
+        if out["final"] != "FAILED":
+            diffs.append(f"a task whose logs cannot be written ends {out['final']}, expected FAILED")
+        out = run("time limit exceeded", timeout=True)
+        kinds = [e[0] for e in out["events"]]
+        if out["final"] not in ("KILLED", "FAILED"):
+            diffs.append(f"a task that exceeds its time limit ends {out['final']}, expected KILLED")
+        if not any(e[0] == "killpg" and "KILL" in str(e[2]) for e in out["events"]):
+            diffs.append("a task that exceeds its time limit is not sent SIGKILL through its process group: its children keep running")
+        elif "release" in kinds and kinds.index("release") < max(i for i, e in enumerate(out["events"]) if e[0] == "killpg"):
+            diffs.append("time limit exceeded: the core is released before the process group has been killed")
+        if "proc.wait" not in kinds:
+            diffs.append("time limit exceeded: the killed process is never reaped (proc.wait)")
+        if not any(e[0] == "wait_for" and e[1] == 5 for e in out["events"]):
+            diffs.append("the task's time limit is not applied to the run of its process")
+        # cancellation at every await of the normal path (with and without dependencies)
+        for deps in ({}, {1: "COMPLETED"}):
+            base, err = eval_task(ctx, deps=deps)
+            if err:
+                raise Unsupported(err)
+            for k in range(1, base["awaits"] + 1):
+                label = f"cancelled at await #{k} (`{base['await_log'][k - 1]}`){' with a dependency' if deps else ''}"
+                out = run(label, deps=deps, cancel_at=k)
+                kinds = [e[0] for e in out["events"]]
+                if out["final"] != "CANCELLED":
+                    diffs.append(f"{label}: the task ends {out['final']}, expected CANCELLED")
+                if "spawn" in kinds:
+                    if not any(e[0] == "killpg" and "KILL" in str(e[2]) for e in out["events"]):
+                        diffs.append(f"{label}: the running process group is not sent SIGKILL: the task's processes keep running after the cancellation")
+                    elif "release" in kinds and kinds.index("release") < max(i for i, e in enumerate(out["events"]) if e[0] == "killpg"):
+                        diffs.append(f"{label}: the core is released before the process group has been killed")
+                    if "proc.wait" not in kinds[kinds.index("spawn"):]:
+                        diffs.append(f"{label}: the killed process is never reaped")
+                elif any(e[0] in ("killpg", "proc.kill") for e in out["events"]):
+                    diffs.append(f"{label}: the kill sequence runs although no process was started")
+    except Unsupported as exc:
+        return n, diffs, str(exc)
+    # de-duplicate, keep order
+    seen, uniq = set(), []
+    for d in diffs:
+        if d not in seen:
+            seen.add(d)
+            uniq.append(d)
+    return n, uniq, None
+
+
+def cancel_task_witness(ctx):
+    """Scheduler.cancel_task over every LocalStatus member: only waiting/running tasks are cancelled; a finished task keeps its final state."""
+    LOCAL = "gwf.backends.local"
+    idx = ctx.index
+    ci = idx.cls(f"{LOCAL}:Scheduler")
+    m = idx.method(ci, "cancel_task")
+    from ..consteval import enum_members
+    members = enum_members(idx, idx.cls(f"{LOCAL}:LocalStatus"))
+    diffs, n = [], 0
+    for st in members:
+        calls = []
+        worker = Obj("aiotask")
+        states = {7: EnumVal(f"{LOCAL}.LocalStatus", st), 8: EnumVal(f"{LOCAL}.LocalStatus", "RUNNING")}
+        sched = Obj("scheduler", tasks={7: worker, 8: Obj("aiotask")}, task_states=states, **{"__class__": ci})
+        interp = PureInterp(ctx, hooks={"attr:cancel": lambda recv, *a, **k: calls.append(recv is worker), "attr:done": lambda recv: st in ("COMPLETED", "FAILED", "KILLED", "CANCELLED")})
+        try:
+            interp.call(m, (7,), {}, self_obj=sched)
+        except Raised as exc:
+            diffs.append(f"cancelling a task in state {st} raises {exc.kind}")
+            n += 1
+            continue
+        except Unsupported as exc:
+            return n, diffs, f"Unsupported: {exc}"
+        n += 1
+        after = states[7].member if isinstance(states[7], EnumVal) else states[7]
+        live = st in ("SUBMITTED", "RUNNING")
+        if live and (calls != [True] or after != "CANCELLED"):
+            diffs.append(f"cancelling a {st} task: worker.cancel() called {len(calls)} time(s), state afterwards {after}; expected one cancel and CANCELLED")
+        if not live and (calls or after != st):
+            diffs.append(f"cancelling a task that is {st}: worker.cancel() called {len(calls)} time(s), state afterwards {after}; a finished (or unknown) task must keep its state and not be cancelled")
+        if states[8].member != "RUNNING":
+            diffs.append(f"cancelling task 7 changes the state of task 8 to {states[8].member}")
+    return n, diffs, None
